@@ -89,7 +89,7 @@ EXTRA = {
     "C18": " The first panic positions of every task-kind case are also run with tokio itself polling the macro's future (multi-thread runtime; next to a sibling that exhausts the coop budget).",
     "C20": " The second process of the cross-process comparison runs inside a hostile package directory (manifest with renamed tokio / futures / join, cargo config) as cwd and CARGO_MANIFEST_DIR. Rejected inputs count as invocations: their complete diagnostics are compared, including inputs with several different mistakes at once.",
     "C10": " Cancellation runs: in fully gated runs of the async kinds the macro's future is dropped at every quiescent pending point in turn; the token ledger must be empty right after the drop (task kinds: after the detached tasks ran out and the runtime is gone) and what ran before is a prefix of the model.",
-    "C15": " No generator panic is whitelisted (a handler / option that does not fit the macro kind must come out as a diagnostic)." Labelled classes also: a `~` inside an operand that is not complete yet, `let` names with a subpattern.,
+    "C15": " No generator panic is whitelisted (a handler / option that does not fit the macro kind must come out as a diagnostic). Labelled classes also: a `~` inside an operand that is not complete yet, `let` names with a subpattern.",
 }
 
 NOT_YET = "check not built yet (framework under construction; see DESIGN.md section 8)"
